@@ -127,7 +127,7 @@ impl tx3_tir::compile::Compiler for Compiler {
             tir::CompilerOp::ComputeSlotToTime(x) => {
                 let slot = coercion::expr_into_number(&x)?;
 
-                if slot < 0 {
+                if slot < 0 || slot > u64::MAX as i128 {
                     return Err(CompileError::CoerceError(
                         format!("{}", slot),
                         "positive slot number".to_string(),
